@@ -109,13 +109,43 @@ func runC09(c *hx.Ctx) *hx.Outcome {
 		readerFault = append(readerFault, in)
 		o.Fault("source:fails-before-the-end")
 	}
+	// the file handler's EOF tolerance: zero (a finite file) or not (a live
+	// line: the terminal EOF is retried until the tolerance has passed)
+	tolMs := []uint{0, 0, 0, 50, 2000}[t.S(5)]
+	waitMs := []uint{0, 20}[t.S(2)]
+	// a live line also goes quiet for a moment and resumes: end-of-file or
+	// time-out results well within the tolerance, then more data ("however the
+	// bytes are chunked in time")
+	transient := false
+	if tolMs > 0 && len(wire) > 0 && len(readerFault) == 0 && t.SBool(1, 2) {
+		transient = true
+		last := -1
+		for i := 1 + t.S(3); i > 0; i-- {
+			at := pickOffset(t, segs, len(wire))
+			if at <= last {
+				at = last + 1 + t.S(4)
+			}
+			if at >= len(wire) {
+				break
+			}
+			last = at
+			readerFault = append(readerFault, env.Interruption{At: at, Timeout: t.S(2) == 1, Mixed: t.S(4) == 0,
+				Silence: time.Duration(t.S(int(tolMs/2)+1)) * time.Millisecond})
+		}
+		o.Fault("source:quiet-then-resumes-within-tolerance")
+	}
 	if c.Detail {
-		o.Sample = map[string]any{"reader_fault": readerFault, "segments": gnss.Describe(segs), "wire_len": len(wire), "wire_hex": hexShort(wire), "line_faults": faults, "consumers": descs, "max_chunk": maxChunk}
+		o.Sample = map[string]any{"eof_tolerance_ms": tolMs, "eof_wait_ms": waitMs, "reader_fault": readerFault, "segments": gnss.Describe(segs), "wire_len": len(wire), "wire_hex": hexShort(wire), "line_faults": faults, "consumers": descs, "max_chunk": maxChunk}
 	}
 	s := c.NewSim()
 	s.ChooseStrategy()
 	s.SetStarveKey([]string{"consumer", "file_handler", "app_core", "handler.go"}[t.D(4)])
 	fineGrained(c, s, o)
+	if transient {
+		// the handler measures the quiet period with its own clock: a handler frozen
+		// for minutes would see a line that resumed in time as one that did not
+		s.Freeze = false
+	}
 	s.Budget = 96*(len(wire)+16)*(1+nonNil/2) + 8192
 	src := &env.Source{T: t, Data: wire, MaxChunk: maxChunk, ZeroReads: t.SBool(1, 4), DataWithErr: t.SBool(1, 3), Ints: readerFault, PauseOneIn: []int{0, 0, 0, 3, 40}[t.S(5)]}
 	var moreSrc []*env.Source
@@ -159,9 +189,7 @@ func runC09(c *hx.Ctx) *hx.Outcome {
 				}
 			})
 		}
-		// the file handler's EOF tolerance: zero (a finite file) or not (a live
-		// line: the terminal EOF is retried until the tolerance has passed)
-		cfg := jsonconfig.Config{TimeoutOnEOFMilliSeconds: []uint{0, 0, 0, 50, 2000}[t.S(5)], WaitTimeOnEOFMilliseconds: []uint{0, 20}[t.S(2)]}
+		cfg := jsonconfig.Config{TimeoutOnEOFMilliSeconds: tolMs, WaitTimeOnEOFMilliseconds: waitMs}
 		if cfg.TimeoutOnEOFMilliSeconds > 0 {
 			o.Probe("nonzero-eof-tolerance")
 		}
@@ -191,7 +219,7 @@ func runC09(c *hx.Ctx) *hx.Outcome {
 	o.SimTime = s.Elapsed()
 	// the reference: sequential framing of the bytes the reader actually supplied
 	want, refPanic := sequentialRef(src.Handed)
-	if len(readerFault) == 0 && len(src.Handed) != len(wire) && returned && len(s.Panics) == 0 {
+	if (len(readerFault) == 0 || transient) && len(src.Handed) != len(wire) && returned && len(s.Panics) == 0 {
 		o.Fail("C09/source-not-exhausted", "the call returned after %d of %d bytes of the source were read", len(src.Handed), len(wire))
 	}
 	for _, more := range moreSrc {
